@@ -8,6 +8,7 @@ import io
 import json
 import logging
 import os
+import re
 import sys
 import traceback
 
@@ -279,15 +280,14 @@ def main():
             stdin_buffer = sys.stdin.buffer  # pylint: disable=no-member,useless-suppression
             stdin_text = io.TextIOWrapper(stdin_buffer, encoding='utf-8').read()
 
-            parts = stdin_text.split('namespace')
-            if len(parts) == 1:
-                specs.append(('stdin.1', parts[0]))
-            else:
-                specs.append(
-                    ('stdin.1', '{}namespace{}'.format(parts.pop(0), parts.pop(0))))
-                while parts:
-                    specs.append(('stdin.%s' % (len(specs) + 1),
-                                  'namespace%s' % parts.pop(0)))
+            # A new spec starts at every line that begins with the namespace
+            # keyword; the word may also occur in docs, comments and names.
+            parts = re.split(r'^(?=namespace\b)', stdin_text, flags=re.MULTILINE)
+            if len(parts) > 1:
+                # Whatever precedes the first declaration belongs to it.
+                parts[0:2] = [parts[0] + parts[1]]
+            for part in parts:
+                specs.append(('stdin.%s' % (len(specs) + 1), part))
 
         if args.filter_by_route_attr:
             route_filter, route_filter_errors = parse_route_attr_filter(
